@@ -390,6 +390,31 @@ def lru_case(rng, nsrc):
     return head("P", "R", mtu, PMAGIC) + "|" + ";".join(ops + ["E:%d:%d" % (j, a) for j, a in plan])
 
 
+def packetized_case(rng, drain):
+    """dataio/PacketizedProxyDataIO on its own: packets written into / read from a byte pipe that takes / gives a scripted
+    number of bytes per call"""
+    wmtu = rng.choice([1, 3, 4, 5, 8, 30, 100, 600])
+    rmtu = wmtu if rng.random() < 0.85 else rng.choice([max(1, wmtu - 1), wmtu + 5, 2, 1000])
+    ops = []
+    nw = 0
+    for _ in range(rng.choice([2, 4, 6, 10, 16])):
+        r = rng.random()
+        if r < 0.45:
+            n = rng.choice([1, 1, 2, 3, 4, 5, max(1, wmtu - 1), wmtu, wmtu, rng.randint(1, wmtu)] + ([wmtu + 1, 0] if rng.random() < 0.15 else []))
+            pk = payload(rng, n, rng.choice(["ramp", "rand", "const"]))
+            tot = n + 4
+            q = [0, 1, 2, 3, 4, 5, tot - 1, tot, tot + 1, BIG, BIG, BIG]
+            ops.append("W:%s:%d:%d" % (pk.hex(), rng.choice(q), rng.choice(q))); nw += 1
+        elif r < 0.55:
+            ops.append("F:%d" % rng.choice([0, 1, 2, 3, 4, 7, BIG]))
+        else:
+            q = [0, 1, 2, 3, 4, 5, 7, BIG, BIG]
+            ops.append("R:%d:%d:%d" % (rng.choice([rmtu, rmtu, rmtu + 9, 70000] + ([1, max(1, rmtu - 1)] if rng.random() < 0.1 else [])), rng.choice(q), rng.choice(q)))
+    if drain:
+        ops += ["F:%d" % BIG] * 2 + ["R:%d:%d:%d" % (max(rmtu, wmtu) + 9, BIG, BIG)] * (2 * nw + 3)
+    return "T,%d,%d|" % (wmtu, rmtu) + ";".join(ops)
+
+
 def exhaustive_cases(kind, maxlen):
     """all delivery sequences of length <= maxlen over the packets of one fixed 3-message scenario"""
     out = []
@@ -449,6 +474,8 @@ class CHECK(vlib.Check):
                 "acceptance test with the uint32 overflow guard, delivery and reset, misc-data pass-through, truncation to the receiver's MTU). "
                 "iogateway/MiniPacketTunnelIOGateway.cpp: packet/chunk framing, 24-bit packet id, drop of oversize buffers, per-packet "
                 "compression decision and header patch, receive side incl. inflate failure. "
+                "dataio/PacketizedProxyDataIO.cpp: Write / WriteBufferedOutput / Read state machines (size-word framing, partial child "
+                "writes and reads, busy writer, empty packets, oversize error) over a scripted byte pipe. "
                 "Not modelled: the slave gateway and Message flattening (a Message is the byte buffer handed to the tunnel), "
                 "a Message for which the slave generates no bytes, allocation failures, the time-slice cut-off of the I/O loops.")
     premises = ["zlib (ZLibCodec::Deflate/Inflate with independent=true) is a Section variable of Gw/MiniTunnel.v: the theorems assume "
@@ -466,7 +493,11 @@ class CHECK(vlib.Check):
             "scenario; after EVERY operation the written packets (hex), the sender cursor, the delivered buffers (hex, with source) and the "
             "whole receive-state table (order, id, offset, buffer size, assembled prefix) are compared with the extracted model; the harness "
             "evaluates the property's two clauses itself (delivered => sent by that source; perfect transport => delivered = sent-that-fits, in order). "
-            "Non-trivial = at least one Message is added and output and at least one datagram reaches the receiver.")
+            "A third kind of case drives dataio/PacketizedProxyDataIO (writer and reader joined by a byte pipe that takes/gives a scripted "
+            "number of bytes per call), comparing every Write/Flush/Read result, the bytes the pipe took and the internal counters, "
+            "with the oracle 'packets read = packets written, in order'. "
+            "Non-trivial = at least one Message is added and output and at least one datagram reaches the receiver (tunnels); "
+            "at least one Write and one Read (packetized).")
 
     # ------------------------------------------------------------------ generators
     def gen_cases(self, rng, tier):
@@ -518,6 +549,10 @@ class CHECK(vlib.Check):
             out.append(("N-foreign", forged_case(rng, "N", big)))
         for c in exhaustive_cases("N", 3 if q else 5):
             out.append(("N-exhaustive", c))
+        for _ in range(rep(250)):
+            out.append(("T-packetized", packetized_case(rng, False)))
+        for _ in range(rep(250)):
+            out.append(("T-packetized-drain", packetized_case(rng, True)))
         return self.add_ztables(out)
 
     def add_ztables(self, cases):
@@ -567,6 +602,8 @@ class CHECK(vlib.Check):
 
     def nontrivial(self, case):
         b = case.split("|", 1)[1] if "|" in case else ""
+        if case.startswith("T,"):
+            return ("W:" in b) and ("R:" in b)
         return ("A:" in b) and ("O:" in b) and bool(re.search(r"(^|;)[DEX]:", b))
 
     def distribution(self, sc):
